@@ -202,8 +202,12 @@ func genCorpus(seed int64) []namedFile {
 		s, _ := vp8lgen.Generate(p, seed)
 		out = append(out, namedFile{"gen-" + name, riffwalk.RIFF(riffwalk.ChunkBytes("VP8L", s)), true})
 	}
-	dims := map[string]int{"4x4": 0, "1x17": 3, "2x9": 4, "9x4": 9}
-	for dn, di := range dims {
+	// (slices, not maps: every shard process must see the same corpus in the same order)
+	for _, d := range []struct {
+		n string
+		i int
+	}{{"4x4", 0}, {"1x17", 3}, {"2x9", 4}, {"9x4", 9}} {
+		dn, di := d.n, d.i
 		add(dn+"-base", presetPicker{"dims": di})
 		for c := 1; c <= 7; c++ {
 			add(fmt.Sprintf("%s-copies%d", dn, c), presetPicker{"dims": di, "main-copies": c})
@@ -246,10 +250,14 @@ func vp8Corpus(seed int64) []namedFile {
 		f, _ := vp8gen.Generate(p, seed)
 		out = append(out, namedFile{"vp8gen-" + name, riffwalk.RIFF(riffwalk.ChunkBytes("VP8 ", f.Encode())), true})
 	}
-	menus := map[string]int{"qbase": 6, "qdelta-y1dc": 4, "qdelta-y2dc": 4, "qdelta-y2ac": 4, "qdelta-uvdc": 4, "qdelta-uvac": 4, "segments": 5,
-		"filter-level": 5, "filter-simple": 2, "sharpness": 3, "lf-delta": 3, "partitions": 4, "ymode": 8, "submode": 11, "uvmode": 5, "skip": 4, "prob-updates": 4}
+	menus := []struct {
+		label string
+		n     int
+	}{{"qbase", 6}, {"qdelta-y1dc", 4}, {"qdelta-y2dc", 4}, {"qdelta-y2ac", 4}, {"qdelta-uvdc", 4}, {"qdelta-uvac", 4}, {"segments", 5},
+		{"filter-level", 5}, {"filter-simple", 2}, {"sharpness", 3}, {"lf-delta", 3}, {"partitions", 4}, {"ymode", 8}, {"submode", 11}, {"uvmode", 5}, {"skip", 4}, {"prob-updates", 4}}
 	add("base", vp8Preset{"dims": 4, "coeffs": 7})
-	for label, n := range menus {
+	for _, mn := range menus {
+		label, n := mn.label, mn.n
 		for v := 1; v < n; v++ {
 			p := vp8Preset{"dims": 4, "coeffs": 7, "filter-level": 3, label: v}
 			if label == "submode" {
